@@ -7,6 +7,7 @@
 package go9p
 
 import (
+	"errors"
 	"fmt"
 	"io"
 	"log"
@@ -39,7 +40,8 @@ func toError(err error) *Error {
 	var ecode uint32
 
 	ename := err.Error()
-	if e, ok := err.(syscall.Errno); ok {
+	var e syscall.Errno
+	if errors.As(err, &e) {
 		ecode = uint32(e)
 	} else {
 		ecode = EIO
